@@ -353,6 +353,59 @@ Definition spec_find_resource := find_resource_with spec_traverser.
 Definition with_traversed (d : tdict) (tr : list text) : tdict :=
   mkT (t_context d) (t_view_name d) (t_subpath d) tr (t_virtual_root d) (t_virtual_root_path d) (t_root d).
 
+(* ------------------------------------------------------------ Router *)
+(* Router.handle_request, traversal part: attrs = request.__dict__;
+   attrs['root'] = root; tdict = traverser(request); attrs.update(tdict).
+   Attribute values: a resource (position), a str, or a sequence of str. *)
+Inductive aval := ARes (p : pos) | AStr (t : text) | ASeq (l : list text).
+Definition attrs := list (text * aval).        (* insertion-ordered dict *)
+
+Fixpoint attrs_set (k : text) (v : aval) (a : attrs) : attrs :=
+  match a with
+  | [] => [(k, v)]
+  | (k', v') :: r => if text_eqb k k' then (k, v) :: r else (k', v') :: attrs_set k v r
+  end.
+Fixpoint attrs_get (k : text) (a : attrs) : option aval :=
+  match a with
+  | [] => None
+  | (k', v) :: r => if text_eqb k k' then Some v else attrs_get k r
+  end.
+Definition attrs_update (a : attrs) (items : list (text * aval)) : attrs :=
+  fold_left (fun acc kv => attrs_set (fst kv) (snd kv) acc) items a.
+
+Definition k_context : text := [99; 111; 110; 116; 101; 120; 116]%N.
+Definition k_view_name : text := [118; 105; 101; 119; 95; 110; 97; 109; 101]%N.
+Definition k_subpath : text := [115; 117; 98; 112; 97; 116; 104]%N.
+Definition k_traversed : text := [116; 114; 97; 118; 101; 114; 115; 101; 100]%N.
+Definition k_virtual_root : text := [118; 105; 114; 116; 117; 97; 108; 95; 114; 111; 111; 116]%N.
+Definition k_virtual_root_path : text :=
+  [118; 105; 114; 116; 117; 97; 108; 95; 114; 111; 111; 116; 95; 112; 97; 116; 104]%N.
+Definition k_root : text := [114; 111; 111; 116]%N.
+
+(* the value the traverser's dictionary holds under a key *)
+Definition tdict_field (d : tdict) (k : text) : option aval :=
+  if text_eqb k k_context then Some (ARes (t_context d))
+  else if text_eqb k k_view_name then Some (AStr (t_view_name d))
+  else if text_eqb k k_subpath then Some (ASeq (t_subpath d))
+  else if text_eqb k k_traversed then Some (ASeq (t_traversed d))
+  else if text_eqb k k_virtual_root then Some (ARes (t_virtual_root d))
+  else if text_eqb k k_virtual_root_path then Some (ASeq (t_virtual_root_path d))
+  else if text_eqb k k_root then Some (ARes (t_root d))
+  else None.
+
+(* the dictionary's items, keys in the order of the source's dict literal (regenerated) *)
+Definition tdict_items (d : tdict) : list (text * aval) :=
+  flat_map (fun k => match tdict_field d k with Some v => [(k, v)] | None => [] end) ret_keys.
+
+Definition router_traversal_with (T : rnode -> request -> result tdict)
+           (root : rnode) (q : request) : result attrs :=
+  let a0 := attrs_set router_root_key (ARes (fst root)) [] in
+  rlet d := T root q in
+  Ok (if router_updates_attrs then attrs_update a0 (tdict_items d) else a0).
+
+Definition router_traversal := router_traversal_with traverser_call.
+Definition spec_router_traversal := router_traversal_with spec_traverser.
+
 (* ------------------------------------------------------------ wire glue *)
 Fixpoint get_res (v : val) : option res :=
   match v with
@@ -407,6 +460,15 @@ Definition put_tuple (l : list text) : val := VL [VI 3; vtexts l].
 Definition put_found (f : found) : val :=
   match f with FoundAt p => VL [VI 4; put_pos p] | KeyErr => VL [VI 5] end.
 
+Definition put_aval (v : aval) : val :=
+  match v with
+  | ARes p => VL [VI 0; put_pos p]
+  | AStr t => VL [VI 1; VT t]
+  | ASeq l => VL [VI 2; vtexts l]
+  end.
+Definition put_attrs (a : attrs) : val :=
+  VL [VI 7; VL (map (fun kv => VL [VT (fst kv); put_aval (snd kv)]) a)].
+
 (* one operation of a history -> [model answer; spec answer (or [] when the
    property adds nothing beyond the model)] *)
 Definition run_op (tree : res) (v : val) : option val :=
@@ -428,6 +490,11 @@ Definition run_op (tree : res) (v : val) : option val :=
       olet st := get_pos st in olet p := get_api_path p in
       Some (VL [put_result put_found (find_resource tree st p);
                 put_result put_found (spec_find_resource tree st p)])
+  | VL [VI 6%Z; pi; md; vr] =>
+      olet pi := get_opt get_text pi in olet md := get_opt get_md md in olet vr := get_opt get_text vr in
+      let q := mkReq pi md vr in
+      Some (VL [put_result put_attrs (router_traversal ([], tree) q);
+                put_result put_attrs (spec_router_traversal ([], tree) q)])
   | VL [VI 5%Z; VT seg; VT safe] =>
       Some (VL [put_result (fun t => VL [VI 6; VT t]) (quote_path_segment_safe seg safe); VL []])
   | _ => None
